@@ -11,6 +11,7 @@ import numpy as np
 from .. import indlib
 from .c13 import _names, job_env  # same worker modes (bounds-checked numba by default)
 
+CRASH_IS_VIOLATION = True     # a worker dying from a signal while it runs indicator code is a finding, not noise
 PROP = 'C14'
 RULE = ('every public indicator with a `sequential` argument x (default + non-default parameter sets, every source type) x input '
         'lengths {60, 239, 240, 241, 400, 1000}; every call gets a private copy of the pristine series, which must come back '
@@ -90,6 +91,10 @@ def run_job(job):
                         except Exception:
                             cnt['single_and_trailing_window_both_raise'] = cnt.get('single_and_trailing_window_both_raise', 0) + 1
                             continue
+                    if name == 'minmax' and n <= kw.get('order', 3) + 1:
+                        # documented: the single value is the entry `order`+1 from the end - there is none on such a short input
+                        cnt['minmax_short_input_skipped'] = cnt.get('minmax_short_input_skipped', 0) + 1
+                        continue
                     bad(f'single_raises:{name}', f'{name}({kw}) sequential works on {n} candles, non-sequential raises {ex!r}',
                         params=kw, n=n)
                     continue
@@ -156,13 +161,13 @@ def make_jobs(tier, seed):
     chunk = 4
     for i in range(0, len(names), chunk):
         jobs.append({'names': names[i:i + chunk], 'seed': rng.randrange(1 << 30), 'mode': 'bc',
-                     'nparams': 4 if tier == 'quick' else 30, 'lengths': LENGTHS if tier == 'thorough' else [60, 239, 240, 241, 400],
-                     'kinds': ['walk', 'lattice', 'gappy', 'alternating', 'zerovol'], 'want_sample': i == 0})
+                     'nparams': 4 if tier == 'quick' else 30, 'lengths': LENGTHS if tier == 'thorough' else [9, 25, 60, 239, 240, 241, 400],
+                     'kinds': ['walk', 'lattice', 'gappy', 'alternating', 'zerovol', 'flattail', 'flattail'], 'want_sample': i == 0})
     if tier == 'thorough':
         for rep in range(6):
             for i in range(0, len(names), chunk):
                 jobs.append({'names': names[i:i + chunk], 'seed': rng.randrange(1 << 30), 'mode': 'bc', 'nparams': 40, 'lengths': LENGTHS,
-                             'kinds': ['walk', 'lattice', 'gappy', 'alternating', 'trend', 'spikes', 'flat', 'zerovol', 'tiny']})
+                             'kinds': ['walk', 'lattice', 'gappy', 'alternating', 'trend', 'spikes', 'flat', 'zerovol', 'tiny', 'flattail', 'outside']})
         for i in range(0, len(names), chunk):
             jobs.append({'names': names[i:i + chunk], 'seed': rng.randrange(1 << 30), 'mode': 'jit', 'nparams': 3,
                          'lengths': LENGTHS, 'kinds': ['walk', 'flat', 'alternating']})
